@@ -242,7 +242,7 @@ pub fn check_lattice<D: Distance>(
         (1usize << 63) - 1,
         1usize << 63,
         (1usize << 63) + 1,
-        usize::MAX / n_trees + 1,
+        (usize::MAX / n_trees).saturating_add(1),
         usize::MAX,
     ];
     let ks = [None, Some(1usize), Some(2), Some(5), Some((n / 2).max(1)), Some(n), Some(10 * n), Some(usize::MAX)];
@@ -367,7 +367,7 @@ pub fn check_lattice<D: Distance>(
         }
         // overflowing count x trees with the budget unset must behave as unlimited
         if reader.n_trees() >= 2 {
-            for count in [1usize << 63, (1usize << 63) + 1, usize::MAX / reader.n_trees() + 1, usize::MAX] {
+            for count in [1usize << 63, (1usize << 63) + 1, (usize::MAX / reader.n_trees()).saturating_add(1), usize::MAX] {
                 let q = Q { count, search_k: None, oversampling: None, candidates: None, by: by.clone() };
                 let res = exec(&q, st)?;
                 st.flag("overflowing_count");
